@@ -76,10 +76,11 @@ def gen_case(ch: Chooser, tier: str = "quick") -> dict:
 
         def body(depth: int, iters: list[str], budget: list[int]):
             out = []
+            mine: list = []      # Signal names declared in this body so far (local to the iteration)
             n = ch.rint(1, 3)
             for _ in range(n):
                 kind = ch.weighted([(4, "sig"), (3, "place"), (1, "mem"), (1 if uses_func else 0, "call"),
-                                    (2 if depth < 3 else 0, "nest"), (2, "siglit")])
+                                    (2 if depth < 3 else 0, "nest"), (2, "siglit"), (2, "itproj")])
                 itv = ["var", ch.pick(iters)]
                 if kind == "sig":
                     op = ch.pick(["+", "-", "*", ">", "==", "<=", "%"])
@@ -87,12 +88,26 @@ def gen_case(ch: Chooser, tier: str = "quick") -> dict:
                     if op == "%":
                         rhs = ["bin", "+", ["bin", "*", itv, itv], ["lit", 1, 10]]
                     out.append(["decl", "Signal", c.fresh("t"), ["bin", op, g.sig_leaf(), rhs]])
+                    mine.append(out[-1][2])
                 elif kind == "siglit":
                     t = ch.pick(gen.VIRTUALS)
                     val = ["bin", ch.pick(["+", "*", "-"]), itv, ["lit", ch.rint(-3, 5), 10]]
                     nm = c.fresh("t")
                     out.append(["decl", "Signal", nm, ["siglit", t, val]])
                     out.append(["decl", "Signal", c.fresh("t"), ["bin", "+", ["var", nm], g.sig_leaf()]])
+                    mine += [nm, out[-1][2]]
+                elif kind == "itproj":
+                    # the bare iterator (or a nested projection of it) given a type
+                    t = ch.pick(gen.VIRTUALS)
+                    val = ["proj", itv, t]
+                    if ch.chance(1, 4):
+                        val = ["proj", val, ch.pick(gen.VIRTUALS)]
+                    nm = c.fresh("t")
+                    out.append(["decl", "Signal", nm, val])
+                    mine.append(nm)
+                    if ch.chance(1, 2):
+                        out.append(["decl", "Signal", c.fresh("t"), ["bin", ch.pick(["+", "*"]), ["var", nm], g.sig_leaf()]])
+                        mine.append(out[-1][2])
                 elif kind == "place":
                     row[0] += 1
                     y = row[0] * 2 - 12
@@ -101,7 +116,12 @@ def gen_case(ch: Chooser, tier: str = "quick") -> dict:
                         x = ["bin", "+", x, ["bin", "*", ["var", iters[0]], ["lit", 40, 10]]]
                     nm = c.fresh("lamp")
                     out.append(["place", nm, ch.pick(["small-lamp", "small-lamp", "inserter"]), x, ["lit", y, 10], None])
-                    if ch.chance(3, 4):
+                    if mine and ch.chance(1, 2):
+                        # an entity per iteration watching an iteration-local value: entities never
+                        # fold or merge, so every iteration's own value stays observable
+                        out.append(["enable", nm, ["bin", ch.pick(lang.CMP_OPS), ["var", ch.pick(mine)],
+                                                   ["lit", ch.rint(-3, 6), 10] if ch.chance(1, 2) else g.sig_leaf()]])
+                    elif ch.chance(3, 4):
                         out.append(["enable", nm, ["bin", ch.pick(lang.CMP_OPS), g.sig_leaf(), itv]])
                 elif kind == "mem":
                     nonlocal_state[0] = True
@@ -205,6 +225,13 @@ def run_case(case: dict) -> dict:
             res["status"] = "excluded"
             res["excluded_by"] = "crosstalk"
             return res
+        if "same-source-two-roles" in excl:
+            from .c02 import same_source_two_roles
+
+            if same_source_two_roles(un):
+                res["status"] = "excluded"
+                res["excluded_by"] = "same-source-two-roles"
+                return res
         # user-placed entities: the reference unroller's placements (C09 oracle) on the loop build
         it = lang.Interp(un)
         it.run(input_inits(case), {})
